@@ -29,10 +29,36 @@ Section Wf.
 
 End Wf.
 
+(* ---- every position is inside its source.  parsePrecedingComment indexes the lines the source
+   was split into with the node's line number (Gen/Directive.v lines_above): the access is in
+   range iff line-1 <= number of lines.  (line = 0: synthesised node, nothing is indexed; the
+   check is trivially true for lines 0 and 1.)  [src] is the index of the source of the enclosing
+   operation / fragment definition. ---- *)
+Definition pos_okb (srcs : list (list lkind)) (src : nat) (line : N) : bool :=
+  Nat.leb (N.to_nat line - 1) (List.length (nth src srcs [])).
+
+Section Pos.
+  Variable srcs : list (list lkind).
+
+  Fixpoint sel_posb (src : nat) (s : sel) : bool :=
+    match s with
+    | SField _ _ _ _ _ sub line => pos_okb srcs src line && forallb (sel_posb src) sub
+    | SInline _ _ sub line => pos_okb srcs src line && forallb (sel_posb src) sub
+    | SSpread _ _ line => pos_okb srcs src line
+    end.
+  Definition frag_posb (fr : fragment) : bool :=
+    pos_okb srcs (fr_src fr) (fr_line fr) && forallb (sel_posb (fr_src fr)) (fr_sel fr).
+  Definition frags_posb (frags : list fragment) : bool := forallb frag_posb frags.
+  Definition op_posb (o : operation) : bool :=
+    pos_okb srcs (op_src o) (op_line o) && forallb (sel_posb (op_src o)) (op_sel o)
+    && forallb (fun v => pos_okb srcs (op_src o) (vd_line v)) (op_vars o).
+End Pos.
+
 (* ---- the stronger form used by the full no-panic theorem: in addition, every field has a
    non-empty alias (GraphQL: the alias defaults to the name), and every selection set has at most
    one synthesised `__typename` (preprocessing adds at most one) and at least one node that is
-   not synthesised (the grammar has no empty selection set) ---- *)
+   not synthesised (the grammar has no empty selection set), and every node's position is inside
+   its source ([pos_okb]) ---- *)
 Definition flat_synth (s : sel) : bool :=
   match s with SField _ n _ _ _ _ l => str_eqb n typename_name && N.eqb l 0 | _ => false end.
 
@@ -43,16 +69,23 @@ Definition set_shape_okb (sels : list sel) : bool :=
 Section Wf2.
   Variable sch : schema.
   Variable frags : list fragment.
+  Variable srcs : list (list lkind).
 
-  Fixpoint sel_okb2 (s : sel) : bool :=
+  (* [src]: the source of the enclosing operation / fragment definition (positions, see above) *)
+  Fixpoint sel_okb2 (src : nat) (s : sel) : bool :=
     match s with
-    | SField a _ fty _ _ sub _ => nonempty a && ty_okb sch fty && set_shape_okb sub && forallb sel_okb2 sub
-    | SInline c _ sub _ => (match c with [] => true | _ => is_some (find_type sch c) end) && set_shape_okb sub && forallb sel_okb2 sub
-    | SSpread n _ _ => is_some (find_fragment frags n)
+    | SField a _ fty _ _ sub line =>
+        nonempty a && ty_okb sch fty && set_shape_okb sub && pos_okb srcs src line && forallb (sel_okb2 src) sub
+    | SInline c _ sub line =>
+        (match c with [] => true | _ => is_some (find_type sch c) end) && set_shape_okb sub
+        && pos_okb srcs src line && forallb (sel_okb2 src) sub
+    | SSpread n _ line => is_some (find_fragment frags n) && pos_okb srcs src line
     end.
-  Definition sels_okb2 (sels : list sel) : bool := set_shape_okb sels && forallb sel_okb2 sels.
-  Definition frag_okb2 (fr : fragment) : bool := is_some (find_type sch (fr_on fr)) && sels_okb2 (fr_sel fr).
+  Definition sels_okb2 (src : nat) (sels : list sel) : bool := set_shape_okb sels && forallb (sel_okb2 src) sels.
+  Definition frag_okb2 (fr : fragment) : bool :=
+    is_some (find_type sch (fr_on fr)) && pos_okb srcs (fr_src fr) (fr_line fr) && sels_okb2 (fr_src fr) (fr_sel fr).
   Definition frags_okb2 : bool := forallb frag_okb2 frags.
   Definition op_okb2 (o : operation) : bool :=
-    is_some (root_type sch (op_kind o)) && sels_okb2 (op_sel o) && forallb (fun v => ty_okb sch (vd_type v)) (op_vars o).
+    is_some (root_type sch (op_kind o)) && pos_okb srcs (op_src o) (op_line o) && sels_okb2 (op_src o) (op_sel o)
+    && forallb (fun v => ty_okb sch (vd_type v) && pos_okb srcs (op_src o) (vd_line v)) (op_vars o).
 End Wf2.
